@@ -343,6 +343,25 @@ def check(model, rep, tier):
   # ---------------------------------------------------------------- OPNAME
   ns = _namespace(model)
   sites = [s for s in tpl.find_sites(model) if s.fi.module.rel != 'malt/pyct/templates.py']
+  # every template call receives a template: a name without a reaching string
+  # definition makes the converter itself fail (NameError / ValueError)
+  rep.rule('TPL-RESOLVE', 'the template argument of every template call is bound '
+           'to a template text on every path', floor=40)
+  for s_ in sites:
+    a0 = s_.call.args[0] if s_.call.args else None
+    unbound = False
+    if s_.unresolved is not None and isinstance(a0, ast.Name):
+      ds = tpl.rdefs(s_.fi.node).reaching(s_.call, a0.id)
+      unbound = ds is not None and not ds and a0.id not in s_.fi.module.assigns \
+          and a0.id not in s_.fi.params(skip_self=False)
+    key_ = '%s:template-argument(%s)' % (s_.fi.site, s_.api)
+    if unbound:
+      rep.violation('TPL-RESOLVE', key_,
+                    'the template variable %s has no definition reaching this call: '
+                    'the handler raises instead of converting the construct' % a0.id,
+                    line=s_.call.lineno, witness='any program containing the construct')
+    else:
+      rep.hold('TPL-RESOLVE', key_, {'resolved': s_.unresolved is None}, nontrivial=False)
   seen = {}
   for s in sites:
     for t in s.templates:
@@ -443,7 +462,7 @@ def check(model, rep, tier):
                   'the break flag must be set to False before the loop that '
                   'tests it', {'template': t.text.strip()}, line=s.call.lineno)
   vb = [s for s in bsites if s.fi.name == 'visit_Break']
-  ok = len(vb) == 1 and [core.norm(x) for x in vb[0].templates[0].tree.body] == [
+  ok = len(vb) == 1 and bool(vb[0].templates) and [core.norm(x) for x in vb[0].templates[0].tree.body] == [
       'var_name = True', 'continue']
   rep.check(ok, 'TPL-FLAG', '%sbreak_statements.py:BreakTransformer.visit_Break:lowering' % CONV,
             'break lowers to: set the flag, continue', line=vb[0].call.lineno if vb
